@@ -22,20 +22,29 @@ def run_property(prop, tier, repo_root, seed=0, replay=None, write=True):
         mod = importlib.import_module('sa.props.%s' % prop)
     except ImportError as e:
         return analysis_error(prop, tier, seed, 'no driver for %s (%s)' % (prop, e), write)
+    rep = None
+    err = None
     try:
         repo = Repo(repo_root)
         rep = Report(prop, tier, seed, repo_root, replay, write)
         mod.check(repo, rep, tier)
-        return rep.finish()
     except AnalysisError as e:
-        return analysis_error(prop, tier, seed, str(e), write)
+        err = str(e)
     except RecursionError:
-        return analysis_error(prop, tier, seed, 'internal recursion limit', write)
+        err = 'internal recursion limit'
     except Exception as e:        # noqa - every traceback becomes exit 2
         tb = traceback.format_exc()
         sys.stderr.write(tb)
-        last = tb.strip().splitlines()[-1]
-        return analysis_error(prop, tier, seed, 'internal error: %s' % last, write)
+        err = 'internal error: %s' % tb.strip().splitlines()[-1]
+    if rep is not None and err is None and rep.deferred:
+        err = '; '.join(rep.deferred)
+    if err is not None:
+        # a positive violation found before the analysis broke down is still a violation
+        if rep is not None and rep.new_violations():
+            rep.note('analysis', 'analysis incomplete: %s' % err)
+            return rep.finish()
+        return analysis_error(prop, tier, seed, err, write)
+    return rep.finish()
 
 
 def main(argv=None):
